@@ -136,8 +136,12 @@ pub async fn one(sizes: &[usize], o: &[usize], n: &[usize], st: &mut Stats, exec
     let nix = tiling_index(sizes, n, hash_len);
     let o_tiling: &[usize] = o;
     let (sizes_v, n_v) = (sizes.to_vec(), n.to_vec());
+    let max_read = [0usize, 1, 2, 5][st.cases % 4];
     let res = tokio::spawn(async move {
-        let file = MemFile::new(prior);
+        let mut file = MemFile::new(prior);
+        // three cases in four the file hands out short reads (at most 1, 2 or 5 bytes per call, as a real
+        // file does beyond 2 MiB): a chunk read back from the output must still be complete
+        file.max_read = max_read;
         let mut out = CloneOutput::new(file, nix);
         let r = out.reorder_in_place(oix).await;
         let mut left: Vec<usize> = out.chunks().keys().map(hash_id).collect();
